@@ -813,6 +813,14 @@ func deadlineSitesRule(r *Report, loop *ssa.Function) {
 			if fnName(f) == "(*M.Proxy).connect" {
 				continue
 			}
+			// a wrapper type's own method of the same name that hands the call to the connection it
+			// wraps arms nothing by itself
+			if f.Signature.Recv() != nil && f.Name() == name && len(f.Params) == 2 {
+				args := cc.Args
+				if len(args) > 0 && isParamVal(args[len(args)-1], f.Params[1]) {
+					continue
+				}
+			}
 			recv := cc.Value
 			if !cc.IsInvoke() && len(cc.Args) > 0 {
 				recv = cc.Args[0]
